@@ -327,7 +327,7 @@ var baseEnv = initBaseEnv(map[string]Extension{
 	"each": {
 		Func:               jlib.Each,
 		UndefinedHandler:   defaultUndefinedHandler,
-		EvalContextHandler: defaultContextHandler,
+		EvalContextHandler: argCountEquals1,
 	},
 	"sift": {
 		Func:               jlib.Sift,
@@ -342,7 +342,7 @@ var baseEnv = initBaseEnv(map[string]Extension{
 	"lookup": {
 		Func:               lookup,
 		UndefinedHandler:   defaultUndefinedHandler,
-		EvalContextHandler: defaultContextHandler,
+		EvalContextHandler: argCountEquals1,
 	},
 	"spread": {
 		Func:               jlib.Spread,
